@@ -30,6 +30,8 @@ def worker(cfg, tier='quick'):
         return w_metropolis(cfg, tier)
     if cfg.startswith('fp '):
         return w_fp(cfg, tier)
+    if cfg.startswith('tables '):
+        return w_tables(cfg, tier)
     _install()
     from panqec.error_models import PauliErrorModel, BaseErrorModel
     col = hz.Collector(cfg)
@@ -134,6 +136,23 @@ def worker(cfg, tier='quick'):
               z3_or([Q['I'][i] + Q['X'][i] + Q['Y'][i] + Q['Z'][i] != 1 for i in range(n)]), wit,
               'with the per-letter factors above, the 4^n products sum to prod_i (q_I+q_X+q_Y+q_Z) = 1')
     return col.result()
+
+
+def w_tables(cfg, tier):
+    """cfg = 'tables <code>[/deformation[/axis]]': the tables the REAL PauliErrorModel.probability_distribution
+    hands to error_probability, for symbolic (p, r_x, r_y) and the named noise deformation: per qubit the
+    four entries are non-negative and sum to one (the premise of 'the 4^n probabilities sum to 1' that the
+    other workers take as an assumption about an arbitrary table), and are the channel values permuted by
+    the deformation.  Same symbolic run as C07's distribution worker, reported under C18."""
+    from checks import c07
+    res = c07.w_dist('dist ' + cfg.split(' ', 1)[1], tier)
+    res['config'] = cfg
+    for o in res['obs']:
+        o['config'] = cfg
+        o['oid'] = o['oid'].replace('C07/probability_distribution/', 'C18/real-tables/')
+        if o.get('witness'):
+            o['witness'] = dict(o['witness'], tables=True)
+    return res
 
 
 FP_ERRORS = {'identity': lambda n: [0] * (2 * n),
@@ -332,6 +351,24 @@ def replay(path):
         bad = any(o['oid'] == oid and o['verdict'] == 'sat' for o in res['obs'])
         print('REPLAY', 'reproduced' if bad else 'not-reproduced', oid, cfg)
         return 0
+    if w.get('tables'):
+        import subprocess
+        import tempfile
+        from checks import c07
+        d2 = dict(d, oid=oid.replace('C18/real-tables/', 'C07/probability_distribution/'),
+                  config='dist ' + cfg.split(' ', 1)[1])
+        with tempfile.NamedTemporaryFile('w', suffix='.json', delete=False) as f:
+            json.dump(d2, f)
+        import io
+        import contextlib
+        buf = io.StringIO()
+        with contextlib.redirect_stdout(buf):
+            c07.replay(f.name)
+        out = buf.getvalue()
+        print(out)
+        bad = any(l.startswith('REPLAY reproduced') for l in out.splitlines())
+        print('REPLAY', 'reproduced' if bad else 'not-reproduced', oid, cfg)
+        return 0
     if w.get('fp'):
         import math
         code = common.make_code(cfg.split(' ')[1])
@@ -397,6 +434,8 @@ def replay(path):
 def configs(tier):
     c = ['RotatedPlanar2DCode(2,2)', 'Toric2DCode(2,3)', 'Toric3DCode(2,2,2)/XZZX/z', 'metropolis RotatedPlanar2DCode(2,2)']
     c += [f'fp RotatedPlanar2DCode(2,2) {e}' for e in FP_ERRORS]
+    c += ['tables RotatedPlanar2DCode(2,2)', 'tables RotatedPlanar2DCode(2,2)/XY', 'tables Toric2DCode(2,3)/XZZX/x',
+          'tables RhombicPlanarCode(2,2,2)/Checkerboard_XZZX', 'tables Color488Code(2,2)/XXZZ']
     if tier != 'quick':
         c += [f'fp Toric2DCode(2,2) {e}' for e in FP_ERRORS] + ['fp Planar2DCode(2,3) mixed']
     if tier != 'quick':
